@@ -1,5 +1,6 @@
 """C01 -- loading is faithful; load -> serialize -> load is the identity (scope: the text escaping pair, the tokenizer's slices and
 byte trimming under contract; everything that touches the element graph only through a bounded API-level round trip)."""
+from vxlib.common import result_line
 import copy
 
 from contracts import escape, trim, lexer, parser_funnel
@@ -12,7 +13,7 @@ def _api(ctx, name, cmd, bound, ok_detail, replay_cmd, timeout=1800):
     b = ctx.native()
     rc, out, err, secs = run([b] + cmd, timeout=timeout)
     ctx.t('native-enum', secs)
-    line = (out.strip().splitlines() or [''])[-1]
+    line = result_line(out)
     if line.startswith('OK'):
         ctx.add(Obligation(ctx.prop, name, 'native-eval', 'bounded', 'discharged', seconds=secs, bound=bound, detail='%s [%s]' % (ok_detail, line)))
     elif line.startswith('FAIL'):
